@@ -111,3 +111,21 @@ func mutate(t *rapid.T, y []int, terms []int) []int {
 		return append([]int{}, y[:i]...)
 	}
 }
+
+// DeepInput draws a long token sequence (120-220 tokens) made of a short
+// repeated pattern: in grammars with right recursion or bracket nesting it
+// drives the parser stack far beyond its initial capacity.
+func DeepInput(t *rapid.T, c *cfg.CFG) []int {
+	terms := inputTerms(c)
+	if len(terms) == 0 {
+		return nil
+	}
+	pat := rapid.SliceOfN(rapid.SampledFrom(terms), 1, 3).Draw(t, "deepPattern")
+	n := rapid.IntRange(120, 220).Draw(t, "deepLen")
+	out := make([]int, 0, n+4)
+	for len(out) < n {
+		out = append(out, pat...)
+	}
+	tail := rapid.SliceOfN(rapid.SampledFrom(terms), 0, 4).Draw(t, "deepTail")
+	return append(out, tail...)
+}
